@@ -70,6 +70,14 @@ def run(ctx, prop=PROP, judge=judge_c04, title="peak connections in flight <= fa
         ru = eng.run(["-R", "sim", "-f", str(f), "-w", "h[0-%d]" % (n - 1), "cmd"], hosts, seed=r.next() % (1 << 31), spur=spur,
                      pspur=r.choice([10, 30, 60]))
         runs.append((ru, n, f))
+    # the configured fanout is the one in effect whatever the descriptor limit of the process is
+    for k in range(40 if quick else 600):
+        n = r.range(6, 9)
+        f = r.range(5, n)
+        hosts = [("h%d" % i, "o", "A" + (b"o%d\n" % i).hex(), "-", 0) for i in range(n)]
+        ru = eng.run(["-R", "sim", "-f", str(f), "-w", "h[0-%d]" % (n - 1), "cmd"], hosts, seed=r.next() % (1 << 31), spur=r.choice([0, 1]),
+                     nofile=r.choice([36, 40, 41]))
+        runs.append((ru, n, f))
     recheck = detect_recheck()
     for ru, n, f in runs:
         cases.append("disp %d %d %d %s" % (n, f, 1, " ".join(ru.model_events())))
